@@ -119,8 +119,7 @@ def run(chk: Check):
         cases = res.cases
         # replay: all multiset classes (sorted name tuple) once per order class; bounded
         budget = 1500 if thorough else 220
-        stride = max(1, len(cases) // budget)
-        for i, c in enumerate(cases[chk.seed % stride::stride]):
+        for i, c in enumerate(naming.pick(cases, budget, chk.seed)):
             n = len(c["names"])
             check_dir(chk, c, kind, [60] * n, chk.seed + i, "equal", record=(i % 7 == 0))
             if i % 4 == 0 and n > 1:
